@@ -57,6 +57,8 @@ type inflObs struct {
 }
 
 type endpoint struct {
+	queued    bool     // Execute only queues the job (as the poller path does); the harness runs the queue later
+	jobs      []func() // pending jobs
 	parser    *nbhttp.Parser
 	ws        *websocket.Conn
 	closed    bool // underlying conn closed
@@ -180,6 +182,10 @@ func newEndpoint(g wsCfg) *endpoint {
 	inline := func(f func()) bool {
 		if e.closed {
 			return false
+		}
+		if e.queued {
+			e.jobs = append(e.jobs, f)
+			return true
 		}
 		f()
 		return true
@@ -485,6 +491,8 @@ func exec(e *lp.Exec) {
 			execE(e, rc)
 		case f[0] == "W" && mode == "rt" && len(f) >= 4:
 			rt.execW(e, lg, f)
+		case f[0] == "B" && mode == "rt" && len(f) >= 3:
+			rt.execB(e, lg, f)
 		default:
 			e.P("> %s", line)
 			e.P("bad-op")
@@ -509,6 +517,15 @@ func guard(e *lp.Exec, echo string, f func() error) error {
 		os.Exit(3)
 	}
 	return nil
+}
+
+// runJobs runs the queued jobs in order (jobs queued meanwhile included)
+func (ep *endpoint) runJobs() {
+	for len(ep.jobs) > 0 {
+		j := ep.jobs[0]
+		ep.jobs = ep.jobs[1:]
+		j()
+	}
 }
 
 func (ep *endpoint) cacheLen() int {
@@ -789,7 +806,8 @@ func execE(e *lp.Exec, rc *recvCase) {
 // ---------------------------------------------------------------- round trip
 
 type rtCase struct {
-	c, s   *endpoint
+	runEach bool // queued executor: run the queue after each Parse call (else after all segments of the op)
+	c, s    *endpoint
 	limit  int
 	style  string
 	rng    *rand.Rand
@@ -805,6 +823,14 @@ func newRT(f []string) *rtCase {
 	gc.client = true
 	r := &rtCase{c: newEndpoint(gc), s: newEndpoint(g), limit: g.limit, style: field(f, "seg"),
 		rng: rand.New(rand.NewSource(int64(atoi(field(f, "seed")))))}
+	if field(f, "exec") == "queued" {
+		r.c.queued, r.s.queued = true, true
+		r.runEach = field(f, "run") == "each"
+	}
+	if field(f, "rel") == "1" {
+		r.c.ws.VerifSetReleasePayload(true)
+		r.s.ws.VerifSetReleasePayload(true)
+	}
 	fmt.Fprintf(&r.key, "rt/%v/%d/%v/%s|", comp, g.level, g.limit > 0, r.style)
 	return r
 }
@@ -917,9 +943,13 @@ func (r *rtCase) execW(e *lp.Exec, lg *capLogger, f []string) {
 		if rerr == 0 {
 			seg := append([]byte{}, rest[:k]...)
 			rerr = errCode(guard(e, strings.Join(f, " "), func() error { return rcv.ws.Parse(seg) }))
+			if r.runEach {
+				rcv.runJobs()
+			}
 		}
 		rest = rest[k:]
 	}
+	rcv.runJobs()
 	racts, rwrites := rcv.acts, rcv.writes
 	back := bytes.Join(rwrites, nil)
 	bkeys := keysOf(rwrites)
@@ -928,6 +958,7 @@ func (r *rtCase) execW(e *lp.Exec, lg *capLogger, f []string) {
 	berr := 0
 	if len(back) > 0 {
 		berr = errCode(snd.ws.Parse(append([]byte{}, back...)))
+		snd.runJobs()
 	}
 	e.P("> W %s %s %s keys=%s defl=%s cuts=%s infl=%s bkeys=%s rkeys=%s", f[1], f[2], f[3], keys, defl, strings.Join(cs, ","), rcv.inflAnn(), bkeys, keysOf(snd.writes[nw:]))
 	// codec: for a compressed data message, "inflate (deflate x) = x" on what compress/flate really produced
@@ -982,6 +1013,105 @@ func (r *rtCase) execW(e *lp.Exec, lg *capLogger, f []string) {
 	}
 	if r.c.closed || r.s.closed || rerr != 0 || berr != 0 {
 		// engine glue: a Parse error or a closed conn tears down both ends
+		r.closed = true
+		r.c.closed, r.s.closed = true, true
+	}
+}
+
+// execB: a batch of messages written back to back by one side; the receiver parses all their bytes (segmented) and, with
+// the queued executor, may run the message callbacks only afterwards: C12 asks for the same payloads all the same.
+//
+//	B c|s <type>/<spec>;<type>/<spec>;...
+func (r *rtCase) execB(e *lp.Exec, lg *capLogger, f []string) {
+	snd, rcv := r.c, r.s
+	if f[1] == "s" {
+		snd, rcv = r.s, r.c
+	}
+	snd.reset()
+	rcv.reset()
+	type msg struct {
+		mt   int
+		data []byte
+	}
+	var msgs []msg
+	werr := 0
+	for _, m := range strings.Split(f[2], ";") {
+		p := strings.SplitN(m, "/", 2)
+		if len(p) != 2 {
+			continue
+		}
+		mm := msg{typeOf(p[0]), parseSpec(p[1])}
+		msgs = append(msgs, mm)
+		if ec := errCode(snd.ws.WriteMessage(websocket.MessageType(mm.mt), mm.data)); ec != 0 && werr == 0 {
+			werr = ec
+		}
+	}
+	wire := bytes.Join(snd.writes, nil)
+	keys, defl := keysOf(snd.writes), snd.deflAnn()
+	cuts := r.cuts(len(wire))
+	var cs []string
+	rerr := 0
+	rest := wire
+	for _, k := range cuts {
+		cs = append(cs, strconv.Itoa(k))
+		if rerr == 0 {
+			seg := append([]byte{}, rest[:k]...)
+			rerr = errCode(guard(e, "B "+f[1]+" "+f[2], func() error { return rcv.ws.Parse(seg) }))
+			if r.runEach {
+				rcv.runJobs()
+			}
+		}
+		rest = rest[k:]
+	}
+	rcv.runJobs()
+	racts, rwrites := rcv.acts, rcv.writes
+	back := bytes.Join(rwrites, nil)
+	bkeys := keysOf(rwrites)
+	snd.acts = nil
+	nw := len(snd.writes)
+	berr := 0
+	if len(back) > 0 {
+		berr = errCode(snd.ws.Parse(append([]byte{}, back...)))
+		snd.runJobs()
+	}
+	e.P("> B %s %s keys=%s defl=%s cuts=%s infl=%s bkeys=%s rkeys=%s", f[1], f[2], keys, defl, strings.Join(cs, ","), rcv.inflAnn(), bkeys, keysOf(snd.writes[nw:]))
+	e.P("B werr=%d wire=%s recv=%s rerr=%d back=%s berr=%d rcache=%d rmsglen=%d", werr, short(wire), actsStr(racts), rerr, actsStr(snd.acts), berr,
+		rcv.ws.VerifCacheLen(), rcv.ws.VerifMessageLen())
+	if lg.panics > 0 {
+		e.Oracle("c12-roundtrip", "class=panic Parse recovered from a panic")
+		lg.panics = 0
+	}
+	fmt.Fprintf(&r.key, "B%d:%d:%d:%d,", len(msgs), werr, rerr, len(rcv.delivered))
+	r.nt = true
+	e.Count("rt_ops", "batch")
+	// c12-roundtrip on the batch: the data messages, in order, each exactly once, type and payload unchanged
+	if !r.closed && werr == 0 {
+		var want []msg
+		ok := true
+		for _, m := range msgs {
+			if m.mt == 1 || m.mt == 2 {
+				want = append(want, m)
+				if (m.mt == 1 && !utf8.Valid(m.data)) || (r.limit > 0 && len(m.data) > r.limit) {
+					ok = false
+				}
+			} else if m.mt == 8 {
+				ok = false
+			}
+		}
+		if ok {
+			if len(rcv.delivered) != len(want) {
+				e.Oracle("c12-roundtrip", "class=lost-or-changed batch of %d data messages, %d delivered (rerr=%d)", len(want), len(rcv.delivered), rerr)
+			} else {
+				for i, m := range want {
+					if rcv.dtypes[i] != m.mt || !bytes.Equal(rcv.delivered[i], m.data) {
+						e.Oracle("c12-roundtrip", "class=lost-or-changed message %d of the batch: sent type=%d %s, delivered type=%d %s (payload changed)", i, m.mt, short(m.data), rcv.dtypes[i], short(rcv.delivered[i]))
+						break
+					}
+				}
+			}
+		}
+	}
+	if r.c.closed || r.s.closed || rerr != 0 || berr != 0 {
 		r.closed = true
 		r.c.closed, r.s.closed = true, true
 	}
